@@ -156,15 +156,46 @@ func (b *build) e3Child(dir, mode string, wl E3Workload, out string, straceArgs 
 	return code, string(o)
 }
 
-func prepState(dir string, wl E3Workload, olderFrom string) error {
+// prepState creates the directory a save starts from. "crashed-save-leftover": an earlier, LONGER save of the same test
+// was killed right before its rename, so its complete temp file is still lying around (kept in `leftover`, a template
+// directory made once per workload, and copied).
+func prepState(dir string, wl E3Workload, leftover string) error {
 	if err := os.MkdirAll(dir, 0o755); err != nil {
 		return err
 	}
 	switch wl.PreState {
 	case "dir-exists":
 		return os.MkdirAll(filepath.Join(dir, "testdata", "rapid"), 0o755)
+	case "crashed-save-leftover":
+		if leftover != "" {
+			return exec.Command("cp", "-a", leftover+"/.", dir).Run()
+		}
 	}
 	return nil
+}
+
+// makeLeftover runs a longer save of the same test and kills it on entry to its rename.
+func (b *build) makeLeftover(wl E3Workload, root string) (string, error) {
+	dir := filepath.Join(root, "leftover")
+	if err := os.MkdirAll(dir, 0o755); err != nil {
+		return "", err
+	}
+	big := wl
+	big.Lines += 9
+	big.LineLen += 120
+	big.Words += 24
+	big.Seed += 4242
+	tr := filepath.Join(root, "leftover.trace")
+	b.e3Child(dir, "save", big, filepath.Join(root, "leftover.report"), []string{"-e", "inject=renameat,renameat2,rename:signal=SIGKILL:when=1"}, tr)
+	_, killed, _, err := parseTrace(tr)
+	os.Remove(tr)
+	if err != nil || !killed {
+		return "", fmt.Errorf("leftover child was not killed at its rename (%v)", err)
+	}
+	if len(listFailFiles(dir)) != 0 || len(listAllFiles(dir)) == 0 {
+		return "", fmt.Errorf("leftover state unexpected: %v", listAllFiles(dir))
+	}
+	return dir, nil
 }
 
 func listFailFiles(dir string) []string {
@@ -218,8 +249,16 @@ func sameBuf(a, b []uint64) bool {
 // e3RunWorkload: baseline, then every crash point (or only `only` if >= 0).
 func (b *build) e3RunWorkload(wl E3Workload, root string, only int) *e3Result {
 	res := &e3Result{Workload: wl, CallKinds: map[string]int{}, States: map[string]int{}}
+	leftover := ""
+	if wl.PreState == "crashed-save-leftover" {
+		var err error
+		if leftover, err = b.makeLeftover(wl, root); err != nil {
+			res.Harness = err.Error()
+			return res
+		}
+	}
 	base := filepath.Join(root, "base")
-	if err := prepState(base, wl, ""); err != nil {
+	if err := prepState(base, wl, leftover); err != nil {
 		res.Harness = err.Error()
 		return res
 	}
@@ -247,6 +286,27 @@ func (b *build) e3RunWorkload(wl E3Workload, root string, only int) *e3Result {
 	}
 	refBytes, _ := os.ReadFile(refFiles[0])
 	ref := normFailFile(refBytes)
+	if leftover != "" {
+		// what an uninterrupted save produces is defined by a PRISTINE directory; the save over the leftovers must equal it
+		pristine := filepath.Join(root, "pristine")
+		_ = os.MkdirAll(pristine, 0o755)
+		if code, out := b.e3Child(pristine, "save", wl, filepath.Join(root, "pristine.report"), nil, ""); code != 0 {
+			res.Harness = fmt.Sprintf("pristine child exit %d: %s", code, trimTo(out, 300))
+			return res
+		}
+		pf := listFailFiles(pristine)
+		if len(pf) != 1 {
+			res.Harness = fmt.Sprintf("pristine save produced %d fail files", len(pf))
+			return res
+		}
+		pb, _ := os.ReadFile(pf[0])
+		if normFailFile(pb) != ref {
+			res.Viols = append(res.Viols, e3Violation{Rule: "C16.J1", Sig: "save-over-crash-leftovers-differs", Workload: wl, Point: len(calls),
+				Msg: fmt.Sprintf("an earlier save of this test was killed before its rename; the next (uninterrupted) save produced a fail file of %d bytes that differs from what the same save produces in a pristine directory (%d bytes): partial data of the crashed save became visible under a fail-file name; directory: %v", len(refBytes), len(pb), listAllFiles(base))})
+			return res
+		}
+		refBytes, ref = pb, normFailFile(pb)
+	}
 	for _, c := range calls {
 		res.CallKinds[c.Name]++
 	}
@@ -285,7 +345,7 @@ func (b *build) e3RunWorkload(wl E3Workload, root string, only int) *e3Result {
 			defer func() { <-sem }()
 			c := calls[k]
 			dir := filepath.Join(root, fmt.Sprintf("p%d", k))
-			_ = prepState(dir, wl, "")
+			_ = prepState(dir, wl, leftover)
 			tr := filepath.Join(root, fmt.Sprintf("p%d.trace", k))
 			inj := fmt.Sprintf("inject=%s:signal=SIGKILL:when=%d", c.Name, c.Ordinal)
 			b.e3Child(dir, "save", wl, filepath.Join(root, fmt.Sprintf("p%d.report", k)), []string{"-e", inj}, tr)
@@ -376,7 +436,7 @@ func e3GenWorkload(seed uint64, idx int, tier string) E3Workload {
 	}
 	kinds := []int{1, 6, 4, 10} // Fatalf, panic(string), Errorf, nil-map-write
 	return E3Workload{Name: names[next(len(names))], Lines: lines, LineLen: 1 + next(200), Words: []int{0, 1, 8, 64}[next(4)], Seed: 1 + uint64(next(1<<30)),
-		FailKind: kinds[next(len(kinds))], PreState: []string{"empty", "dir-exists"}[next(2)]}
+		FailKind: kinds[next(len(kinds))], PreState: []string{"empty", "dir-exists", "crashed-save-leftover"}[next(3)]}
 }
 
 type e3Replay struct {
